@@ -76,6 +76,18 @@ AcceptTable(e, g, ord, idx) ==
     ELSE IF ~ord /\ ~SameBag(Rows(e, idx), Rows(g, idx)) THEN "RowsBag"
     ELSE "ok"
 
+(* explicit refusals of the partitioned algorithms (C02): a window operation over partitions smaller than the
+   window refuses instead of computing a different value *)
+RECURSIVE HasWindowOp(_)
+HasWindowOp(q) == IF q.op = "src" THEN FALSE
+                  ELSE q.op \in {"shift", "diff", "ffill"} \/ HasWindowOp(q.c[1])
+RECURSIVE HasOp(_, _)
+HasOp(q, name) == IF q.op = "src" THEN FALSE ELSE q.op = name \/ HasOp(q.c[1], name)
+IsRefusal(q, got) ==
+    /\ ~got.ok
+    /\ \/ (got.err = "NotImplementedError" /\ HasWindowOp(q))       \* "Partition size is less than overlapping window size"
+       \/ (got.err = "ValueError" /\ HasOp(q, "ffill"))              \* "All NaN partition encountered in `fillna`"
+
 (* ref, got: results.  A failing reference accepts everything ("optimizer rescued" is allowed);
    a succeeding reference demands success. *)
 Accept(ref, got, ord, idx) ==
